@@ -248,13 +248,16 @@ CONTEXT = 'bardolph.parser.context'
 def _flag_writers(A, ctx):
     """{flag attribute: {method: set of constant values stored}} for the
     boolean flags Context.__init__ creates"""
-    init = ctx.methods['__init__']
-    flags = set()
-    for n in walk_own(init.node):
-        if isinstance(n, ast.Assign) and self_attr(n.targets[0]) \
-                and isinstance(n.value, ast.Constant) \
-                and isinstance(n.value.value, bool):
-            flags.add(n.targets[0].attr)
+    # flags: attributes of self that only ever get constant booleans
+    stores = {}
+    for m in ctx.methods.values():
+        for n in walk_own(m.node):
+            if isinstance(n, ast.Assign):
+                for t in n.targets:
+                    if self_attr(t):
+                        stores.setdefault(t.attr, []).append(n.value)
+    flags = set(a for a, vs in stores.items() if all(
+        isinstance(v, ast.Constant) and isinstance(v.value, bool) for v in vs))
     out = {f: {} for f in flags}
     for m in ctx.methods.values():
         for n in walk_own(m.node):
